@@ -15,7 +15,9 @@ from ..world.run import run_scenario
 PROPERTY = "C01"
 LEVEL = "exploration"
 RULE = (
-    "product of (module shape) x (all non-overlapping sets of <= N edit atoms {insert, replace 1..n, delete 1..n, "
+    "[+ aligned family: 10 modules with one or two aligned blocks x byte-length-varying edits, expected bytes include the "
+    "nop/zero padding the alignment demands; + scope family: AllBlocksScope registrations mixed with block-specific "
+    "modifications at offset 0 in every registration order] product of (module shape) x (all non-overlapping sets of <= N edit atoms {insert, replace 1..n, delete 1..n, "
     "delete whole block, delete whole block to proxy} at every instruction boundary of every block) x (all "
     "registration orders); a case is one apply(); non-trivial = at least one modification and the expected "
     "section bytes differ from the input bytes; distinct by (shape, ordered modification list)"
@@ -82,8 +84,73 @@ def make_spec(target, combo, part):
     return scen.spec_of(blocks, target=target, part=part)
 
 
+def aligned_specs():
+    """3 code blocks, the 2nd and 3rd carrying alignment entries that hold on input."""
+    from ..world import listing as Lg
+
+    isa_ = Lg.isamod.TARGETS["x64-elf"][0]
+    out = []
+    for (alb, alc), kinds in itertools.product(((4, 16), (8, 8), (2, 4), (16, 4), (None, 8)), (("c", "c", "c"), ("c", "d", "c"))):
+        blocks = []
+        pos = 0
+        tag = 1
+        for j, k in enumerate(kinds):
+            nm = scen.NAMES[j]
+            al = (None, alb, alc)[j]
+            if al:
+                # pad the previous block so that the requirement holds on input
+                padn = (-(Lg.SEC_BASE[".text"] + pos)) % al
+                prev = blocks[-1]
+                while padn:
+                    if prev["k"] == "c":
+                        prev["i"].append(["o", tag] if padn >= 2 else ["nop"])
+                        padn -= 2 if prev["i"][-1][0] == "o" else 1
+                        tag += 1
+                    else:
+                        prev["i"].append(["d", 0xE0 + tag])
+                        padn -= 1
+                        tag += 1
+                pos = sum(isa_.size(tuple(i)) for b in blocks for i in b["i"])
+            if k == "c":
+                b = scen.code_block(nm, [tag, tag + 1, tag + 2], None, f="f", e=(j == 0))
+                tag += 3
+            else:
+                b = scen.data_block(nm, [0xD0 + j, 0xD1 + j, 0xD2 + j])
+            if al:
+                b["al"] = al
+            blocks.append(b)
+            pos = sum(isa_.size(tuple(i)) for bb in blocks for i in bb["i"])
+        blocks[-1]["i"].append(["ret"])
+        sp = scen.spec_of(blocks)
+        sp["model_padding"] = True
+        out.append(sp)
+    return out
+
+
+P_ONE = [["nop"]]
+P_THREE = [["p", 0], ["nop"]]
+
+
+def aligned_atoms(spec):
+    out = []
+    for s in spec["sections"]:
+        for b in s["blocks"]:
+            n = len(b["i"])
+            pl = [P_ONE, P_ORD, P_THREE] if b["k"] == "c" else [{"bytes": [0]}, {"bytes": [0, 0, 0]}]
+            for k in sorted({0, 1, n}):
+                for p in pl:
+                    out.append({"op": "ins", "b": b["n"], "k": k, "p": p})
+            out.append({"op": "del", "b": b["n"], "k": 0, "n": 1})
+            out.append({"op": "del", "b": b["n"], "k": n - 1, "n": 1})
+    return out
+
+
 def tasks(tier):
     t = []
+    for i in range(len(aligned_specs())):
+        t.append(("aligned", i, "one", 2 if tier == "quick" else 3, "same-offset"))
+    for combo in (["c2", "c1"], ["c2", "d2", "cr"], ["c1", "c3", "c1"]):
+        t.append(("scope", combo, "one", 2 if tier == "quick" else 3, True))
     for target in ("x64-elf", "x64-pe", "ia32-pe", "arm64-elf", "mips32-elf"):
         bound = BOUNDS[tier]["x64-elf" if target == "x64-elf" else "others"]
         for combo in shapes(target):
@@ -96,6 +163,10 @@ def tasks(tier):
 
 def task_group(task):
     return "%s/%s/n<=%d" % (task[0], task[2], task[3])
+
+
+def _spec_of_case(case):
+    return case["spec"]
 
 
 def _atoms(spec, target):
@@ -117,8 +188,18 @@ def check(spec, mods):
 def run_task(task):
     target, combo, part, bound, orders = task
     res = TaskResult()
-    spec = make_spec(target, combo, part)
-    atoms = _atoms(spec, target)
+    if target == "aligned":
+        spec = aligned_specs()[combo]
+        atoms = aligned_atoms(spec)
+    elif target == "scope":
+        # scope-wide registrations (AllBlocksScope ENTRY) mixed with block-specific ones at offset 0
+        spec = make_spec("x64-elf", combo, part)
+        atoms = [a for a in _atoms(spec, "x64-elf") if a["op"] == "ins" and a["k"] in (0, 1) and a["p"] == P_ORD]
+        atoms += [{"op": "del", "b": b["n"], "k": 0, "n": 1} for s_ in spec["sections"] for b in s_["blocks"]]
+        atoms += [{"op": "scope"}, {"op": "scope"}]
+    else:
+        spec = make_spec(target, combo, part)
+        atoms = _atoms(spec, target)
     inb = input_bytes(spec)
     for mods in scen.mod_sets(spec, atoms, bound, orders=orders):
         mods = scen.retag(mods)
